@@ -297,7 +297,12 @@ def run(ctx):
     from ..core.astutil import guard_truth_table
     good = bool(stores)
     for n in stores:
-        names_, tb = guard_truth_table([(e, p) for e, p, _ in cfg.guards(n)])
+        # only the tests made per entry (inside the loop over the entries) take part
+        loops_ = [l_ for l_ in ast.walk(lf.node) if isinstance(l_, ast.For)
+                  and any(x is n.stmt for x in ast.walk(l_))]
+        inloop_ = {id(x) for l_ in loops_[-1:] for x in ast.walk(l_)}
+        names_, tb = guard_truth_table([(e, p) for e, p, b in cfg.guards(n)
+                                        if not loops_ or id(b.stmt) in inloop_])
         isd_atoms = [a_ for a_ in names_ if a_.startswith("is_storage_device(")]
         if tb is None or "perdisk" not in names_ or len(isd_atoms) != 1 \
                 or set(names_) - {"perdisk", isd_atoms[0]}:
